@@ -70,8 +70,15 @@ func (s *scenario) settleRealTime(quiet, max time.Duration) {
 
 func newScenario(t testing.TB, c *controller, names []string) *scenario {
 	s := &scenario{t: t, c: c, procs: map[string]*sproc{}, names: names, t0: time.Now()}
-	for _, n := range names {
+	for i, n := range names {
 		ctx, cancel := context.WithCancel(context.WithValue(context.Background(), procKey, n))
+		if i%2 == 1 {
+			// every other caller carries a request deadline far beyond anything the scenario waits for (an hour): being
+			// cancelled explicitly must still end its wait at once
+			dctx, dcancel := context.WithTimeout(ctx, time.Hour)
+			c0 := cancel
+			ctx, cancel = dctx, func() { c0(); dcancel() }
+		}
 		s.procs[n] = &sproc{name: n, ctx: ctx, cancel: cancel, state: "idle"}
 	}
 	return s
